@@ -351,7 +351,7 @@ class ArrowStruct(ArrowDataType):
     @classmethod
     def from_parametrized_dtype(cls, pyarrow_dtype: pyarrow.StructType):
         return cls(
-            fields=[pyarrow_dtype.field(i) for i in range(pyarrow_dtype.num_fields)]  # type: ignore
+            fields=tuple(pyarrow_dtype.field(i) for i in range(pyarrow_dtype.num_fields))  # type: ignore
         )
 
 
@@ -515,7 +515,7 @@ class ArrowBinary(ArrowDataType, dtypes.Binary):
     @classmethod
     def from_parametrized_dtype(
         cls,
-        pyarrow_dtype: Union[pyarrow.DataType, pyarrow.FixedSizeBinaryType],
+        pyarrow_dtype: pyarrow.FixedSizeBinaryType,
     ):
         try:
             _dtype = cls(length=pyarrow_dtype.byte_width)  # type: ignore
